@@ -31,4 +31,564 @@ def runBox {A V : Type} [DecidableEq A] (ops : List (IoOp A V)) (b : IoBox A V) 
     | .write a v => b.write a v
     | .update ins => (b.update ins).1) b
 
+section Dict
+variable {κ β : Type} [DecidableEq κ]
+
+theorem alookup_upsert (m : List (κ × β)) (k k' : κ) (v : β) :
+    alookup (upsert m k v) k' = if k' = k then some v else alookup m k' := by
+  induction m with
+  | nil => simp [upsert, alookup, eq_comm]
+  | cons e t ih =>
+    obtain ⟨a, w⟩ := e
+    simp only [upsert]
+    split
+    · subst_vars; simp only [alookup]; split <;> simp_all [eq_comm]
+    · simp only [alookup, ih]; split <;> simp_all [eq_comm]
+
+theorem keys_upsert (m : List (κ × β)) (k : κ) (v : β) :
+    (upsert m k v).map (·.1) = if k ∈ m.map (·.1) then m.map (·.1) else m.map (·.1) ++ [k] := by
+  induction m with
+  | nil => simp [upsert]
+  | cons e t ih =>
+    obtain ⟨a, w⟩ := e
+    simp only [upsert]
+    split
+    · subst_vars; simp
+    · rename_i h
+      simp only [List.map_cons, ih, List.mem_cons]
+      have : ¬ k = a := fun h' => h h'.symm
+      simp only [this, false_or]
+      split <;> simp
+
+theorem alookup_isSome_iff (m : List (κ × β)) (k : κ) :
+    (alookup m k).isSome ↔ k ∈ m.map (·.1) := by
+  induction m with
+  | nil => simp [alookup]
+  | cons e t ih =>
+    obtain ⟨a, w⟩ := e
+    simp only [alookup]
+    split
+    · subst_vars; simp
+    · rename_i h
+      have : ¬ k = a := fun h' => h h'.symm
+      simp [ih, this]
+
+theorem alookup_eq_none_iff (m : List (κ × β)) (k : κ) :
+    alookup m k = none ↔ k ∉ m.map (·.1) := by
+  rw [← alookup_isSome_iff]; cases alookup m k <;> simp
+
+theorem alookup_eq_some_iff (m : List (κ × β)) (h : UniqueKeys m) (k : κ) (v : β) :
+    alookup m k = some v ↔ (k, v) ∈ m := by
+  induction m with
+  | nil => simp [alookup]
+  | cons e t ih =>
+    obtain ⟨a, w⟩ := e
+    simp only [UniqueKeys, List.map_cons, List.nodup_cons] at h
+    simp only [alookup]
+    split
+    · subst_vars
+      simp only [Option.some.injEq, List.mem_cons, Prod.mk.injEq, true_and]
+      constructor
+      · exact fun h => Or.inl h.symm
+      · rintro (h' | h')
+        · exact h'.symm
+        · exact absurd (List.mem_map.mpr ⟨_, h', rfl⟩) h.1
+    · rename_i hne
+      have : ¬ k = a := fun h' => hne h'.symm
+      simp [ih h.2, this]
+
+theorem alookup_mem (m : List (κ × β)) (k : κ) (v : β) (h : alookup m k = some v) : (k, v) ∈ m := by
+  induction m with
+  | nil => simp [alookup] at h
+  | cons e t ih =>
+    obtain ⟨a, w⟩ := e
+    simp only [alookup] at h
+    split at h
+    · subst_vars; simp_all
+    · simp [ih h]
+
+theorem lastWrite_nil {A V : Type} [DecidableEq A] (a : A) : lastWrite ([] : List (A × V)) a = none := rfl
+
+theorem lastWrite_cons {A V : Type} [DecidableEq A] (w : A × V) (ws : List (A × V)) (a : A) :
+    lastWrite (w :: ws) a = (lastWrite ws a).orElse (fun _ => if w.1 = a then some w.2 else none) := by
+  simp only [lastWrite, List.reverse_cons, List.find?_append]
+  cases h : List.find? (fun w => decide (w.1 = a)) ws.reverse with
+  | some x => simp
+  | none => by_cases h' : w.1 = a <;> simp [h']
+
+theorem alookup_applyWrites {A V : Type} [DecidableEq A] (m ws : List (A × V)) (a : A) :
+    alookup (applyWrites m ws) a = (lastWrite ws a).orElse (fun _ => alookup m a) := by
+  induction ws generalizing m with
+  | nil => simp [applyWrites, lastWrite]
+  | cons w ws ih =>
+    have : applyWrites m (w :: ws) = applyWrites (upsert m w.1 w.2) ws := rfl
+    rw [this, ih, lastWrite_cons, alookup_upsert]
+    cases lastWrite ws a with
+    | some x => simp
+    | none =>
+      by_cases h' : w.1 = a
+      · simp [h']
+      · have : ¬ a = w.1 := fun h => h' h.symm
+        simp [h', this]
+
+end Dict
+
+/-! ### IoBox (C20) -/
+section IoBoxL
+variable {A V : Type} [DecidableEq A]
+
+theorem runBox_nil (b : IoBox A V) : runBox [] b = b := rfl
+theorem runBox_write (a : A) (v : V) (ops : List (IoOp A V)) (b : IoBox A V) :
+    runBox (.write a v :: ops) b = runBox ops (b.write a v) := rfl
+theorem runBox_update (ins : List (A × V)) (ops : List (IoOp A V)) (b : IoBox A V) :
+    runBox (.update ins :: ops) b = runBox ops (b.update ins).1 := rfl
+
+theorem lastWrite_eq_none_of {ws : List (A × V)} {a : A} (h : ∀ w ∈ ws, w.1 ≠ a) :
+    lastWrite ws a = none := by
+  induction ws with
+  | nil => rfl
+  | cons w ws ih =>
+    rw [lastWrite_cons, ih (fun w hw => h w (List.mem_cons_of_mem _ hw))]
+    simp [h w List.mem_cons_self]
+
+theorem runBox_read_none (ops : List (IoOp A V)) (a : A) (b : IoBox A V)
+    (hm : b.read a = none) (hb : ∀ w ∈ b.buf, w.1 ≠ a)
+    (hw : ∀ op ∈ ops, match op with
+      | .write a' _ => a' ≠ a
+      | .update ins => ∀ w ∈ ins, w.1 ≠ a) :
+    (runBox ops b).read a = none := by
+  induction ops generalizing b with
+  | nil => exact hm
+  | cons op ops ih =>
+    have hop := hw op List.mem_cons_self
+    have hrest := fun o ho => hw o (List.mem_cons_of_mem _ ho)
+    cases op with
+    | write a' v =>
+      rw [runBox_write]
+      refine ih (b.write a' v) hm ?_ hrest
+      intro w hw'
+      simp only [IoBox.write, List.mem_append, List.mem_singleton] at hw'
+      rcases hw' with h | h
+      · exact hb w h
+      · subst h; exact hop
+    | update ins =>
+      rw [runBox_update]
+      refine ih (b.update ins).1 ?_ ?_ hrest
+      · simp only [IoBox.update, IoBox.read]
+        rw [alookup_applyWrites, lastWrite_eq_none_of]
+        · simpa [IoBox.read] using hm
+        · intro w hw'
+          rcases List.mem_append.mp hw' with h | h
+          · exact hop w h
+          · exact hb w h
+      · simp [IoBox.update]
+
+theorem runChained_inv (ops : List (IoOp A V)) (b1 b2 : IoBox A V)
+    (hm : b1.mem = b2.mem) (hb : b2.buf = []) :
+    (runChained ops (b1, b2)).1.mem = (runChained ops (b1, b2)).2.mem := by
+  induction ops generalizing b1 b2 with
+  | nil => exact hm
+  | cons op ops ih =>
+    cases op with
+    | write a v => exact ih _ _ hm hb
+    | update ins =>
+      simp only [runChained]
+      apply ih
+      · simp [IoBox.update, hm, hb]
+      · simp [IoBox.update]
+
+theorem runChained_fst (ops : List (IoOp A V)) (b1 b2 : IoBox A V) :
+    (runChained ops (b1, b2)).1 = runBox ops b1 := by
+  induction ops generalizing b1 b2 with
+  | nil => rfl
+  | cons op ops ih =>
+    cases op with
+    | write a v => simp only [runChained, runBox_write, ih]
+    | update ins => simp only [runChained, runBox_update, ih]
+
+end IoBoxL
+
+/-! ### scheduler bookkeeping (C06) -/
+section SchedL
+variable {κ β : Type} [DecidableEq κ]
+
+theorem keys_aerase_sublist (m : List (κ × β)) (k : κ) :
+    ((aerase m k).map (·.1)).Sublist (m.map (·.1)) := by
+  induction m with
+  | nil => simp [aerase]
+  | cons e t ih =>
+    obtain ⟨a, w⟩ := e
+    simp only [aerase]
+    split
+    · simp
+    · simpa using ih
+
+theorem UniqueKeys.aerase {m : List (κ × β)} (h : UniqueKeys m) (k : κ) : UniqueKeys (aerase m k) :=
+  List.Nodup.sublist (keys_aerase_sublist m k) h
+
+theorem alookup_aerase (m : List (κ × β)) (h : UniqueKeys m) (k c : κ) :
+    alookup (aerase m k) c = if c = k then none else alookup m c := by
+  induction m with
+  | nil => simp [aerase, alookup]
+  | cons e t ih =>
+    obtain ⟨a, w⟩ := e
+    simp only [UniqueKeys, List.map_cons, List.nodup_cons] at h
+    simp only [aerase]
+    split
+    · subst_vars
+      simp only [alookup]
+      by_cases hc : c = a
+      · subst hc; simp [(alookup_eq_none_iff t c).mpr h.1]
+      · have : ¬ a = c := fun h => hc h.symm
+        simp [hc, this]
+    · rename_i hne
+      simp only [alookup, ih h.2]
+      by_cases hc : c = k
+      · subst hc; simp [hne]
+      · simp [hc]
+
+theorem UniqueKeys.upsert {m : List (κ × β)} (h : UniqueKeys m) (k : κ) (v : β) :
+    UniqueKeys (upsert m k v) := by
+  unfold UniqueKeys at *
+  rw [keys_upsert]
+  split
+  · exact h
+  · rename_i hk
+    rw [List.nodup_append]
+    refine ⟨h, by simp, ?_⟩
+    intro a ha b hb
+    simp only [List.mem_singleton] at hb
+    subst hb
+    intro hab; subst hab; exact hk ha
+
+theorem length_upsert (m : List (κ × β)) (k : κ) (v : β) :
+    (upsert m k v).length = if (alookup m k).isSome then m.length else m.length + 1 := by
+  have := congrArg List.length (keys_upsert m k v)
+  simp only [List.length_map] at this
+  rw [this]
+  by_cases hk : k ∈ m.map (·.1)
+  · simp [hk, (alookup_isSome_iff m k).mpr hk]
+  · have : ¬ (alookup m k).isSome = true := fun h => hk ((alookup_isSome_iff m k).mp h)
+    simp [hk, this]
+
+end SchedL
+
+theorem minTime_eq_none (l : List SimTime) : minTime l = none ↔ l = [] := by
+  cases l with
+  | nil => simp [minTime]
+  | cons t ts => simp only [minTime]; split <;> simp
+
+theorem minTime_spec (l : List SimTime) (m : SimTime) (h : minTime l = some m) :
+    m ∈ l ∧ ∀ t ∈ l, m ≤ t := by
+  induction l generalizing m with
+  | nil => simp [minTime] at h
+  | cons t ts ih =>
+    simp only [minTime] at h
+    split at h
+    · rename_i hn
+      rw [minTime_eq_none] at hn
+      subst hn
+      simp only [Option.some.injEq] at h
+      subst h; simp
+    · rename_i m' hm'
+      obtain ⟨h1, h2⟩ := ih m' hm'
+      simp only [Option.some.injEq] at h
+      subst h
+      split
+      · rename_i hle
+        refine ⟨by simp, ?_⟩
+        intro x hx
+        rcases List.mem_cons.mp hx with rfl | hx
+        · exact Int.le_refl _
+        · exact Int.le_trans hle (h2 x hx)
+      · rename_i hle
+        refine ⟨List.mem_cons_of_mem _ h1, ?_⟩
+        intro x hx
+        rcases List.mem_cons.mp hx with rfl | hx
+        · exact Int.le_of_lt (Int.not_le.mp hle)
+        · exact h2 x hx
+
+theorem firstWakeups_eq (w : Wakeups) (cs : List Comp) (m : SimTime) :
+    firstWakeups w = (cs, some m) ↔
+      minTime (w.map (·.2)) = some m ∧ cs = (w.filter (fun e => e.2 == m)).map (·.1) := by
+  unfold firstWakeups
+  split
+  · rename_i h; simp [h]
+  · rename_i m' h
+    simp only [h, Prod.mk.injEq, Option.some.injEq]
+    constructor
+    · rintro ⟨h1, h2⟩; subst h2; exact ⟨rfl, h1.symm⟩
+    · rintro ⟨h1, h2⟩; subst h1; exact ⟨h2.symm, rfl⟩
+
+theorem firstWakeups_snd (w : Wakeups) : (firstWakeups w).2 = minTime (w.map (·.2)) := by
+  unfold firstWakeups; split <;> simp_all
+
+theorem firstWakeups_spec' (w : Wakeups) (h : UniqueKeys w) (cs : List Comp) (m : SimTime)
+    (hf : firstWakeups w = (cs, some m)) :
+    (∀ c, c ∈ cs ↔ alookup w c = some m) ∧
+    (∀ c t, alookup w c = some t → m ≤ t) ∧
+    (∃ c, alookup w c = some m) ∧ cs.Nodup := by
+  rw [firstWakeups_eq] at hf
+  obtain ⟨hmin, rfl⟩ := hf
+  obtain ⟨hmem, hle⟩ := minTime_spec _ _ hmin
+  refine ⟨?_, ?_, ?_, ?_⟩
+  · intro c
+    rw [alookup_eq_some_iff w h]
+    simp only [List.mem_map, List.mem_filter, beq_iff_eq]
+    constructor
+    · rintro ⟨⟨c', t⟩, ⟨hm, ht⟩, hc⟩
+      simp only at ht hc; subst ht hc; exact hm
+    · intro hm; exact ⟨(c, m), ⟨hm, rfl⟩, rfl⟩
+  · intro c t hc
+    exact hle t (List.mem_map.mpr ⟨(c, t), alookup_mem w c t hc, rfl⟩)
+  · obtain ⟨⟨c, t⟩, hm, ht⟩ := List.mem_map.mp hmem
+    simp only at ht; subst ht
+    exact ⟨c, (alookup_eq_some_iff w h c t).mpr hm⟩
+  · exact List.Nodup.sublist (List.Sublist.map _ List.filter_sublist) h
+
+theorem delWakeups_unique' (w : Wakeups) (h : UniqueKeys w) (cs : List Comp) :
+    UniqueKeys (delWakeups w cs) := by
+  induction cs generalizing w with
+  | nil => exact h
+  | cons c cs ih => exact ih _ (h.aerase c)
+
+theorem delWakeups_lookup' (w : Wakeups) (h : UniqueKeys w) (cs : List Comp) (c : Comp) :
+    alookup (delWakeups w cs) c = if c ∈ cs then none else alookup w c := by
+  induction cs generalizing w with
+  | nil => simp [delWakeups]
+  | cons k cs ih =>
+    have : delWakeups w (k :: cs) = delWakeups (aerase w k) cs := rfl
+    rw [this, ih _ (h.aerase k), alookup_aerase w h]
+    by_cases h1 : c ∈ cs <;> by_cases h2 : c = k <;> simp [h1, h2]
+
+theorem nestedDue_spec' (w : Wakeups) (h : UniqueKeys w) (t : SimTime) (c : Comp) :
+    c ∈ nestedDue w t ↔ ∃ t', alookup w c = some t' ∧ t' ≤ t := by
+  simp only [nestedDue, List.mem_map, List.mem_filter, decide_eq_true_eq]
+  constructor
+  · rintro ⟨⟨c', t'⟩, ⟨hm, ht⟩, hc⟩
+    simp only at ht hc; subst hc
+    exact ⟨t', (alookup_eq_some_iff w h _ _).mpr hm, ht⟩
+  · rintro ⟨t', hl, ht⟩
+    exact ⟨(c, t'), ⟨alookup_mem w c t' hl, ht⟩, rfl⟩
+
+
+/-! ### configuration dispatch (C17) -/
+section CfgL
+
+theorem lastWrite_isSome_iff {A V : Type} [DecidableEq A] (ws : List (A × V)) (a : A) :
+    (lastWrite ws a).isSome ↔ a ∈ ws.map (·.1) := by
+  induction ws with
+  | nil => simp [lastWrite]
+  | cons w ws ih =>
+    rw [lastWrite_cons]
+    cases h : lastWrite ws a with
+    | some x =>
+      have := ih.mp (by simp [h])
+      simp [this]
+    | none =>
+      have : a ∉ ws.map (·.1) := fun hm => by simpa [h] using ih.mpr hm
+      by_cases hw : w.1 = a
+      · simp [hw]
+      · have hw' : ¬ a = w.1 := fun h => hw h.symm
+        simpa [hw, hw'] using this
+
+theorem lastWrite_eq_some_iff {A V : Type} [DecidableEq A] (ws : List (A × V)) (h : UniqueKeys ws)
+    (a : A) (v : V) : lastWrite ws a = some v ↔ (a, v) ∈ ws := by
+  induction ws with
+  | nil => simp [lastWrite]
+  | cons w ws ih =>
+    obtain ⟨k, x⟩ := w
+    simp only [UniqueKeys, List.map_cons, List.nodup_cons] at h
+    rw [lastWrite_cons]
+    by_cases hk : k = a
+    · subst hk
+      have hn : lastWrite ws k = none := by
+        cases hl : lastWrite ws k with
+        | none => rfl
+        | some y => exact absurd ((lastWrite_isSome_iff ws k).mp (by simp [hl])) h.1
+      simp only [hn, Option.orElse_none, if_true, Option.some.injEq, List.mem_cons, Prod.mk.injEq, true_and]
+      constructor
+      · exact fun h => Or.inl h.symm
+      · rintro (h' | h')
+        · exact h'.symm
+        · exact absurd (List.mem_map.mpr ⟨_, h', rfl⟩) h.1
+    · have hk' : ¬ a = k := fun h => hk h.symm
+      simp only [hk, if_false, List.mem_cons, Prod.mk.injEq, hk', false_and, false_or]
+      rw [← ih h.2]
+      cases lastWrite ws a <;> simp
+
+theorem fromConfigs_eq (cfgs : List (Comp × List (Port × CPort))) :
+    InvWiring.fromConfigs cfgs = applyWrites [] cfgs := rfl
+
+theorem alookup_fromConfigs (cfgs : List (Comp × List (Port × CPort))) (b : Comp) :
+    alookup (InvWiring.fromConfigs cfgs) b = lastWrite cfgs b := by
+  rw [fromConfigs_eq, alookup_applyWrites]
+  cases lastWrite cfgs b <;> simp [alookup]
+
+theorem dispatch_some_mem (reg : List ClassSig) (tag : String) (c : ClassSig)
+    (h : dispatch reg tag = some c) : c ∈ reg ∧ c.tag = tag := by
+  unfold dispatch at h
+  exact ⟨List.mem_of_find?_eq_some h, by simpa using List.find?_some h⟩
+
+theorem dispatch_eq_none_iff (reg : List ClassSig) (tag : String) :
+    dispatch reg tag = none ↔ ∀ c ∈ reg, c.tag ≠ tag := by
+  simp [dispatch]
+
+theorem dispatch_eq_some_iff (reg : List ClassSig) (hd : (reg.map (·.tag)).Nodup) (tag : String)
+    (c : ClassSig) : dispatch reg tag = some c ↔ c ∈ reg ∧ c.tag = tag := by
+  refine ⟨dispatch_some_mem reg tag c, ?_⟩
+  rintro ⟨hm, ht⟩
+  induction reg with
+  | nil => simp at hm
+  | cons d ds ih =>
+    simp only [List.map_cons, List.nodup_cons] at hd
+    simp only [dispatch, List.find?_cons]
+    rcases List.mem_cons.mp hm with rfl | hm'
+    · simp [ht]
+    · have : d.tag ≠ tag := by
+        intro he
+        exact hd.1 (List.mem_map.mpr ⟨c, hm', by rw [ht, he]⟩)
+      have hb : (d.tag == tag) = false := by simpa using this
+      rw [hb]
+      exact ih hd.2 hm'
+
+theorem dispatch_perm (reg reg' : List ClassSig) (hp : reg.Perm reg')
+    (hd : (reg.map (·.tag)).Nodup) (tag : String) : dispatch reg tag = dispatch reg' tag := by
+  have hd' : (reg'.map (·.tag)).Nodup := (hp.map _).nodup_iff.mp hd
+  cases h : dispatch reg tag with
+  | none =>
+    symm
+    rw [dispatch_eq_none_iff] at h ⊢
+    exact fun c hc => h c (hp.mem_iff.mpr hc)
+  | some c =>
+    symm
+    rw [dispatch_eq_some_iff _ hd] at h
+    rw [dispatch_eq_some_iff _ hd']
+    exact ⟨hp.mem_iff.mp h.1, h.2⟩
+
+end CfgL
+
+/-! ### command adapters (C18) -/
+section CmdL
+variable {Args : Type}
+
+theorem handleFrom_unknown_iff (cmds : List (Cmd Args)) (data : Bytes) (k : Nat) :
+    handleFrom cmds data k = .unknown ↔ ∀ c ∈ cmds, c.parse data = none := by
+  induction cmds generalizing k with
+  | nil => simp [handleFrom]
+  | cons c cs ih =>
+    simp only [handleFrom]
+    cases h : c.parse data with
+    | some a => simp [h]
+    | none => simp [h, ih]
+
+theorem handleFrom_call_iff (cmds : List (Cmd Args)) (data : Bytes) (k i : Nat) (a : Args) (intr : Bool) :
+    handleFrom cmds data k = .call i a intr ↔
+      ∃ j c, i = k + j ∧ cmds[j]? = some c ∧ c.parse data = some a ∧ intr = c.interrupt ∧
+        ∀ j', j' < j → ∀ c', cmds[j']? = some c' → c'.parse data = none := by
+  induction cmds generalizing k with
+  | nil => simp [handleFrom]
+  | cons c cs ih =>
+    simp only [handleFrom]
+    cases h : c.parse data with
+    | some a0 =>
+      simp only [Handled.call.injEq]
+      constructor
+      · rintro ⟨rfl, rfl, rfl⟩
+        exact ⟨0, c, rfl, rfl, h, rfl, fun j' hj' => absurd hj' (Nat.not_lt_zero _)⟩
+      · rintro ⟨j, c0, hi, hj, hp, hint, hall⟩
+        cases j with
+        | zero =>
+          simp only [List.getElem?_cons_zero, Option.some.injEq] at hj
+          subst hj
+          rw [h] at hp
+          simp only [Option.some.injEq] at hp
+          exact ⟨hi.symm, hp, hint.symm⟩
+        | succ j =>
+          have := hall 0 (Nat.succ_pos _) c rfl
+          rw [h] at this; simp at this
+    | none =>
+      simp only
+      rw [ih]
+      constructor
+      · rintro ⟨j, c0, hi, hj, hp, hint, hall⟩
+        refine ⟨j + 1, c0, by omega, by simpa using hj, hp, hint, ?_⟩
+        intro j' hj' c' hc'
+        cases j' with
+        | zero =>
+          simp only [List.getElem?_cons_zero, Option.some.injEq] at hc'
+          subst hc'; exact h
+        | succ j' => exact hall j' (by omega) c' (by simpa using hc')
+      · rintro ⟨j, c0, hi, hj, hp, hint, hall⟩
+        cases j with
+        | zero =>
+          simp only [List.getElem?_cons_zero, Option.some.injEq] at hj
+          subst hj
+          rw [h] at hp; simp at hp
+        | succ j =>
+          refine ⟨j, c0, by omega, by simpa using hj, hp, hint, ?_⟩
+          intro j' hj' c' hc'
+          exact hall (j' + 1) (by omega) c' (by simpa using hc')
+
+theorem strip_spec {α : Type} (p : α → Bool) (s : List α) :
+    let r := ((s.dropWhile p).reverse.dropWhile p).reverse
+    ∃ pre post, s = pre ++ r ++ post ∧ (∀ c ∈ pre, p c = true) ∧
+      (∀ c ∈ post, p c = true) ∧
+      (∀ c, r.head? = some c → p c = false) ∧
+      (∀ c, r.getLast? = some c → p c = false) := by
+  intro r
+  let d := s.dropWhile p
+  have hs : s = s.takeWhile p ++ d := (List.takeWhile_append_dropWhile).symm
+  have hd : d = r ++ (d.reverse.takeWhile p).reverse := by
+    show d = (d.reverse.dropWhile p).reverse ++ (d.reverse.takeWhile p).reverse
+    rw [← List.reverse_append, List.takeWhile_append_dropWhile, List.reverse_reverse]
+  refine ⟨s.takeWhile p, (d.reverse.takeWhile p).reverse, ?_, ?_, ?_, ?_, ?_⟩
+  · rw [List.append_assoc, ← hd]; exact hs
+  · intro c hc; exact List.all_eq_true.mp List.all_takeWhile c hc
+  · intro c hc; exact List.all_eq_true.mp List.all_takeWhile c (List.mem_reverse.mp hc)
+  · intro c hc
+    have hdh : d.head? = some c := by
+      rw [hd]
+      cases hr : r with
+      | nil => rw [hr] at hc; simp at hc
+      | cons x xs => rw [hr] at hc; simpa using hc
+    have := List.head?_dropWhile_not p s
+    rw [show s.dropWhile p = d from rfl, hdh] at this
+    simpa using this
+  · intro c hc
+    have : r.getLast? = (d.reverse.dropWhile p).head? := by simp [r, d]
+    rw [this] at hc
+    have := List.head?_dropWhile_not p d.reverse
+    rw [hc] at this
+    simpa using this
+
+theorem chunk_counts (cmds : List (Cmd Args)) (replies : Nat → Args → List (Option Bytes))
+    (pre post : Bytes) (data : Bytes) (p q : ConnEv Args → Bool)
+    (hp1 : ∀ i a, p (.invoke i a) = true) (hp2 : p .interrupt = false) (hp3 : ∀ b, p (.write b) = false)
+    (hq1 : ∀ i a, q (.invoke i a) = false) (hq3 : ∀ b, q (.write b) = false) :
+    let evs := tcpChunk cmds replies pre post data
+    (evs.filter p).length ≤ 1 ∧ (evs.filter q).length ≤ (evs.filter p).length := by
+  simp only [tcpChunk]
+  cases handle cmds data with
+  | unknown => simp [hp3, hq3]
+  | call i a intr =>
+    cases intr <;>
+      simp [List.filter_map, Function.comp_def, hp1, hp2, hp3, hq1, hq3, List.filter_cons]
+    split <;> simp
+
+theorem conn_counts (cmds : List (Cmd Args)) (replies : Nat → Args → List (Option Bytes))
+    (pre post : Bytes) (cs : List Bytes) (p q : ConnEv Args → Bool)
+    (hp1 : ∀ i a, p (.invoke i a) = true) (hp2 : p .interrupt = false) (hp3 : ∀ b, p (.write b) = false)
+    (hq1 : ∀ i a, q (.invoke i a) = false) (hq3 : ∀ b, q (.write b) = false) :
+    let evs := tcpConn cmds replies pre post cs
+    (evs.filter p).length ≤ cs.length ∧ (evs.filter q).length ≤ (evs.filter p).length := by
+  induction cs with
+  | nil => simp [tcpConn]
+  | cons d ds ih =>
+    have hc := chunk_counts cmds replies pre post d p q hp1 hp2 hp3 hq1 hq3
+    simp only [tcpConn, List.flatMap_cons, List.filter_append, List.length_append, List.length_cons] at hc ih ⊢
+    omega
+
+end CmdL
+
 end Tickit
